@@ -780,8 +780,11 @@ mod serde {
         where
             A: SeqAccess<'de>,
         {
+            // the length hint comes from the input and cannot be trusted:
+            // pre-allocate for a bounded number of elements only
+            const MAX_PREALLOC: usize = 4096;
             let mut store: Store<I, P, H> = if let Some(size) = seq.size_hint() {
-                Store::with_capacity_and_default_hasher(size)
+                Store::with_capacity_and_default_hasher(size.min(MAX_PREALLOC))
             } else {
                 Store::with_default_hasher()
             };
